@@ -10,6 +10,10 @@ ASSUMPTIONS = ["valid programs come from tools/orch/gogen.py (derivations of the
 
 
 def run(chk):
+    progs_i, li = interaction_stream(chk)
+    for t_, l_ in li.items():
+        if outcome(l_)[0] != 'ok':
+            chk.oracle_fail('interaction-rejected', 'file', t_, R.core(l_)[1][:200], 'accepted', 'a valid program (interaction corpus) is rejected')
     rng = random.Random(chk.seed)
     n = 1500 if chk.tier == 'quick' else 30000
     k = 2 if chk.tier == 'quick' else 3
